@@ -249,6 +249,16 @@ impl A {
         self.n += 1;
         self
     }
+    fn u64v(mut self, v: u64) -> A {
+        self.p32(0x40 | 4);
+        if self.be {
+            self.b.extend_from_slice(&v.to_be_bytes());
+        } else {
+            self.b.extend_from_slice(&v.to_le_bytes());
+        }
+        self.n += 1;
+        self
+    }
     fn u32v(mut self, v: u32) -> A {
         self.p32(0x40 | 3);
         self.p32(v);
@@ -531,6 +541,9 @@ pub fn pool() -> Vec<T> {
     let mut x = mu("mu_noar12", b"MMSG", muniic_args(muniic_head().u32v(MUNIIC_IFACE).u32v(MUNIIC_ATTR), &[1]));
     x.ext.as_mut().unwrap().1 = 12;
     v.push(x);
+    // interface / message id logged as 64-bit unsigned arguments (legal DLT, not the usual layout)
+    v.push(mu("mu_iface_as_u64", b"MMSG", muniic_args(muniic_head().u64v(MUNIIC_IFACE as u64).u32v(MUNIIC_ATTR), &[1])));
+    v.push(mu("mu_msgid_as_u64", b"MMSG", muniic_args(muniic_head().u32v(MUNIIC_IFACE).u64v(MUNIIC_ATTR as u64), &[1])));
     v.push(mu("mu_iface_as_string", b"MMSG", muniic_args(muniic_head().s(b"1228779599").u32v(MUNIIC_ATTR), &[1])));
     v.push(mu("mu_empty_payload", b"MMSG", muniic_args(muniic_head().u32v(MUNIIC_IFACE).u32v(MUNIIC_ATTR), &[])));
     v.push(mu("mu_long_payload", b"MMSG", muniic_args(muniic_head().u32v(MUNIIC_IFACE).u32v(MUNIIC_ATTR), &[0, 9, 9, 9])));
